@@ -19,6 +19,7 @@ Open Scope nat_scope.
 
 Section Proofs.
 Variable K : kern.
+Variable fl : srcflags.
 Notation Mat := (Mat K).
 Notation Val := (Val K).
 Notation obj := (obj K).
@@ -61,7 +62,7 @@ Record kern_ok : Prop := {
   ko_rootinv_1x1 : forall A d, is1x1 A -> valid ADense A d -> valid ARootInv A (k_rootinv_1x1 K d);
   ko_root_factor : forall A r, valid ARoot A r -> valid AFactor A (v_root K r);
   ko_rootinv_factor : forall A r, valid ARootInv A r -> valid AInvFactor A (v_root K r);
-  ko_evals : forall A e, valid (AEig false) A e -> valid AEvals A (k_evals K e);
+  ko_evals : forall A e vecs, valid (AEig vecs) A e -> valid AEvals A (k_evals K e);
   ko_solve : forall A st rhs v, k_solve K A st rhs = Ok v -> valid (ASolve rhs) A v;
   (* the triangular-root shortcut of inv_quad_logdet: a root that IS (honestly) triangular is a Cholesky factor *)
   ko_iqld_tri : forall A t rhs ld, valid AFactor A t -> v_is_tri K t = true -> valid (AIqld rhs ld) A (k_iqld_chol K t rhs ld);
@@ -650,6 +651,23 @@ Proof.
       rewrite aspects_chol_full, Hu. left; reflexivity.
 Qed.
 
+(* ignore_args is sound: on an object whose _cholesky ignores its arguments (the Diag family) the cached entry
+   is a valid factor for BOTH orientations, whichever call stored it *)
+Lemma sound__cholesky_ignore h0 i o args kw : get i h0 = Some o -> pf_chol_ignore (o_pf K o) = true ->
+  sound h0 (_cholesky K i args kw) (fun v => valid (AChol false) (o_mat K o) v /\ valid (AChol true) (o_mat K o) v).
+Proof.
+  intros G Hig. unfold _cholesky.
+  apply (sound_with_obj_wf h0 i o _ _ G); intros h1 o' E1 I1 G1 St (_ & _ & Wd & _).
+  rewrite (mat_eq _ _ St).
+  assert (Eig : pf_chol_ignore (o_pf K o') = true) by (destruct St as (<- & _); exact Hig).
+  rewrite Eig.
+  eapply sound_weaken; [apply (sound_cached h1 i o' "_cholesky" (Some "cholesky") true _ args kw G1)|].
+  - unfold key_of. simpl name_of_opt.
+    sstep; [apply sound_lift with (Q := fun _ => True); auto|]. intros p _. sstep. intros v Hv.
+    intros a [<-|[<-|[]]]; eapply (ko_chol_diag KO); eauto; apply (ko_chol KO); exact Hv.
+  - unfold key_of. simpl name_of_opt. intros v Hv. split; apply Hv; simpl; auto.
+Qed.
+
 Lemma sound_cholesky h0 i o args kw : get i h0 = Some o ->
   sound h0 (cholesky K i args kw) (valid (AChol (chol_up args kw)) (o_mat K o)).
 Proof.
@@ -875,24 +893,42 @@ Lemma catch_miss {A} (m : H A) exs (hd : H A) h e h' :
   m h = (Raise e, h') -> exn_in e exs = true -> catch m exs hd h = hd h'.
 Proof. unfold catch. intros -> ->. reflexivity. Qed.
 
-Lemma eigh_step fuel i h o : Inv h -> get i h = Some o -> no_symeig i h ->
-  Inv (snd (eigh K fuel i h)) /\ ext h (snd (eigh K fuel i h)) /\
-  match fst (eigh K fuel i h) with Ok v => valid (AEig true) (o_mat K o) v | Raise _ => True end.
+Lemma aspects_symeig a k : aspects_of_key (KFull (NStr "symeig") a k) = [AEig true].
+Proof. reflexivity. Qed.
+
+Lemma eigh_step fuel i h o : Inv h -> get i h = Some o -> (fl_eigh_none fl = true -> no_symeig i h) ->
+  Inv (snd (eigh K fl fuel i h)) /\ ext h (snd (eigh K fl fuel i h)) /\
+  match fst (eigh K fl fuel i h) with Ok v => valid (AEig true) (o_mat K o) v | Raise _ => True end.
 Proof.
-  intros I G N. unfold eigh.
-  rewrite (catch_miss _ [CachingError] _ h CachingError h (bind_raise _ _ _ _ _ (pop_miss i h o G (N o G))) eq_refl).
-  exact (sound_symeig fuel h i o true G h (ext_refl h) I).
+  intros I G N. unfold eigh. destruct (fl_eigh_none fl) eqn:Ef.
+  - rewrite (catch_miss _ [CachingError] _ h CachingError h (bind_raise _ _ _ _ _ (pop_miss i h o G (N eq_refl o G))) eq_refl).
+    exact (sound_symeig fuel h i o true G h (ext_refl h) I).
+  - (* the repaired branch returns the popped (evals, evecs): a valid entry *)
+    assert (Sd : sound h (catch (e <- py_pop_from_cache (L := obj_lens K i) (NStr "symeig") [] [("eigenvectors", PBool true)] ;; ret e)
+                                [CachingError] (symeig K fuel i true)) (valid (AEig true) (o_mat K o))).
+    { sstep; [|apply (sound_symeig fuel h i o true G)].
+      sstep; [apply (sound_pop h i o "symeig" _ _ G)|]. intros e He. sstep.
+      apply (entry1_elim _ _ _ _ (aspects_symeig _ _) He). }
+    exact (Sd h (ext_refl h) I).
 Qed.
 
-Lemma eigvalsh_step fuel i h o : Inv h -> get i h = Some o -> no_symeig i h ->
-  Inv (snd (eigvalsh K fuel i h)) /\ ext h (snd (eigvalsh K fuel i h)) /\
-  match fst (eigvalsh K fuel i h) with Ok v => valid AEvals (o_mat K o) v | Raise _ => True end.
+Lemma eigvalsh_step fuel i h o : Inv h -> get i h = Some o -> (fl_eigvalsh_tuple fl = true -> no_symeig i h) ->
+  Inv (snd (eigvalsh K fl fuel i h)) /\ ext h (snd (eigvalsh K fl fuel i h)) /\
+  match fst (eigvalsh K fl fuel i h) with Ok v => valid AEvals (o_mat K o) v | Raise _ => True end.
 Proof.
   intros I G N. unfold eigvalsh.
-  rewrite (catch_miss _ [CachingError] _ h CachingError h (bind_raise _ _ _ _ _ (pop_miss i h o G (N o G))) eq_refl).
-  assert (S : sound h (e <- symeig K fuel i false ;; ret (k_evals K e)) (valid AEvals (o_mat K o))).
-  { sstep; [apply (sound_symeig fuel h i o false G)|]. intros e He. sstep. apply (ko_evals KO). exact He. }
-  exact (S h (ext_refl h) I).
+  assert (S2 : sound h (e <- symeig K fuel i false ;; ret (k_evals K e)) (valid AEvals (o_mat K o))).
+  { sstep; [apply (sound_symeig fuel h i o false G)|]. intros e He. sstep. eapply (ko_evals KO). exact He. }
+  destruct (fl_eigvalsh_tuple fl) eqn:Ef.
+  - rewrite (catch_miss _ [CachingError] _ h CachingError h (bind_raise _ _ _ _ _ (pop_miss i h o G (N eq_refl o G))) eq_refl).
+    exact (S2 h (ext_refl h) I).
+  - assert (Sd : sound h (catch (e <- py_pop_from_cache (L := obj_lens K i) (NStr "symeig") [] [("eigenvectors", PBool true)] ;;
+                                 ret (k_evals K e)) [CachingError]
+                                (e <- symeig K fuel i false ;; ret (k_evals K e))) (valid AEvals (o_mat K o))).
+    { sstep; [|exact S2].
+      sstep; [apply (sound_pop h i o "symeig" _ _ G)|]. intros e He. sstep.
+      eapply (ko_evals KO). apply (entry1_elim _ _ _ _ (aspects_symeig _ _) He). }
+    exact (Sd h (ext_refl h) I).
 Qed.
 
 (* ------------------------------------------------------------------ preconditioner (ad-hoc caches of AddedDiag) *)
@@ -998,13 +1034,17 @@ Qed.
 
 (* ------------------------------------------------------------------ one query *)
 Definition query_ok (i : nat) (q : query) (h : heap) : Prop :=
-  match q with QEigh | QEigvalsh => no_symeig i h | _ => True end.
+  match q with
+  | QEigh => fl_eigh_none fl = true -> no_symeig i h
+  | QEigvalsh => fl_eigvalsh_tuple fl = true -> no_symeig i h
+  | _ => True
+  end.
 
 Definition res_ok {A} (r : res A) (Q : A -> Prop) : Prop := match r with Ok a => Q a | Raise _ => True end.
 
 Lemma run_query_sound st i q h o : Inv h -> get i h = Some o -> query_ok i q h ->
-  Inv (snd (run_query K st i q h)) /\ ext h (snd (run_query K st i q h)) /\
-  res_ok (fst (run_query K st i q h)) (valid (aspect_of_query q) (o_mat K o)).
+  Inv (snd (run_query K fl st i q h)) /\ ext h (snd (run_query K fl st i q h)) /\
+  res_ok (fst (run_query K fl st i q h)) (valid (aspect_of_query q) (o_mat K o)).
 Proof.
   intros I G Qk. unfold res_ok.
   destruct q; cbn [run_query aspect_of_query].
@@ -1129,15 +1169,26 @@ Qed.
 (* the compatibility hypothesis of a transplant, on the values the derivation was handed *)
 Definition transplant_ok (d : deriv) (x : nat * option (Val * Val)) : Prop :=
   match snd x, d with
-  | Some (L, Mi), DAddLowRank _ _ _ _ => compat (v_root K L) (v_root K Mi) /\ v_is_tri K (v_root K L) = false
+  | Some (L, Mi), DAddLowRank _ _ _ _ =>
+      compat (v_root K L) (v_root K Mi) /\ (fl_lr_wraps fl = true -> v_is_tri K (v_root K L) = false)
   | Some (E, R), DCatRows _ _ _ _ _ => compat (v_root K E) (v_root K R)
   | _, _ => True
   end.
 
+Lemma repaired_lifts :
+  (fl_eigh_none fl = false -> fl_eigvalsh_tuple fl = false -> forall i q h, query_ok i q h) /\
+  (fl_lr_wraps fl = false -> forall B m1 m2 g j L M,
+     compat (v_root K L) (v_root K M) -> transplant_ok (DAddLowRank B m1 m2 g) (j, Some (L, M))).
+Proof.
+  split.
+  - intros E1 E2 i q h. destruct q; simpl; auto; intros Ht; congruence.
+  - intros E B m1 m2 g j L M Hc. simpl. split; [exact Hc|]. intros Ht. congruence.
+Qed.
+
 Lemma deriv_finish_step st d x h A oj :
   Inv h -> get (fst x) h = Some oj -> o_mat K oj = deriv_mat K d A ->
   roots_ok A x -> transplant_ok d x ->
-  Inv (snd (deriv_finish K st d x h)) /\ ext h (snd (deriv_finish K st d x h)).
+  Inv (snd (deriv_finish K fl st d x h)) /\ ext h (snd (deriv_finish K fl st d x h)).
 Proof.
   intros I Gj Emj Rk Tk. destruct x as [j [[L Mi]|]]; simpl in *.
   2:{ destruct d; simpl; auto using ext_refl. }
@@ -1145,7 +1196,10 @@ Proof.
   assert (FL := ko_root_factor KO _ _ HL). assert (FM := ko_rootinv_factor KO _ _ HM).
   destruct d; simpl; auto using ext_refl.
   - (* add_low_rank *)
-    destruct Tk as (Hc & Htri). rewrite Htri.
+    destruct Tk as (Hc & Htri).
+    assert (Hw : fl_lr_wraps fl && v_is_tri K (v_root K L) = false)
+      by (destruct (fl_lr_wraps fl); simpl; auto).
+    rewrite Hw.
     destruct (ko_lr_update KO A (v_root K L) (v_root K Mi) B FL FM Hc) as (Hnr & Hni).
     destruct (k_lr_update K (v_root K L) (v_root K Mi) B false) as [nr ni]. simpl in Hnr, Hni.
     assert (S : sound h (add_to_cache_m K j "root_decomposition" nr [] [] ;;;
@@ -1207,13 +1261,13 @@ Definition answer_ok (h : heap) (e : event) (a : answer K) : Prop :=
 
 Theorem step_sound st h (e : event) :
   Inv h -> event_ok (st, h) e ->
-  Inv (snd (snd (step K (st, h) e))) /\ ext h (snd (snd (step K (st, h) e))) /\ answer_ok h e (fst (step K (st, h) e)).
+  Inv (snd (snd (step K fl (st, h) e))) /\ ext h (snd (snd (step K fl (st, h) e))) /\ answer_ok h e (fst (step K fl (st, h) e)).
 Proof.
   intros I Ok_. destruct e as [i q|i d kids res_|st'|i|i]; unfold event_ok in Ok_; unfold step.
   - (* query *)
     destruct Ok_ as ((o & G) & Qk).
     destruct (run_query_sound st i q h o I G Qk) as (I' & E' & R').
-    destruct (run_query K st i q h) as [r h']. cbn [fst snd] in *. split; [exact I'|]. split; [exact E'|].
+    destruct (run_query K fl st i q h) as [r h']. cbn [fst snd] in *. split; [exact I'|]. split; [exact E'|].
     unfold answer_ok. destruct r; [|exact Logic.I]. intros o2 G2. rewrite G in G2. inversion G2; subst. exact R'.
   - (* derivation *)
     destruct Ok_ as ((o & G) & Wn & Tk). unfold run_deriv.
@@ -1221,7 +1275,7 @@ Proof.
     unfold bind. destruct (deriv_roots K st i d kids res_ h) as [[x|e] h1]; cbn [fst snd] in *.
     + destruct R1 as (Rk & oj & Gj & Emj).
       destruct (deriv_finish_step st d x h1 (o_mat K o) oj I1 Gj Emj Rk Tk) as (I2 & E2).
-      destruct (deriv_finish K st d x h1) as [r h2]. cbn [fst snd] in *.
+      destruct (deriv_finish K fl st d x h1) as [r h2]. cbn [fst snd] in *.
       split; [exact I2|]. split; [eapply ext_trans; eauto | exact Logic.I].
     + split; [exact I1|]. split; [exact E1 | exact Logic.I].
   - cbn [fst snd]. split; [exact I|]. split; [apply ext_refl | exact Logic.I].
@@ -1240,28 +1294,37 @@ Proof.
     eapply Inv_put_memo; eauto. apply memo_ok_empty.
 Qed.
 
+(* a heap of freshly constructed objects (no caches) with honest profiles satisfies the invariant *)
+Lemma Inv_fresh h :
+  (forall i o, get i h = Some o -> o_memo K o = None /\ o_adhoc K o = None /\ obj_wf h o) -> Inv h.
+Proof.
+  intros F i o G. destruct (F i o G) as (Em & Ea & W). split; [|split; [|exact W]].
+  - intros k v Hin. rewrite Em in Hin. destruct Hin.
+  - intros r p Hp. rewrite Ea in Hp. discriminate.
+Qed.
+
 Fixpoint good_run (s : state) (es : list event) : Prop :=
   match es with
   | [] => True
-  | e :: r => event_ok s e /\ good_run (snd (step K s e)) r
+  | e :: r => event_ok s e /\ good_run (snd (step K fl s e)) r
   end.
 
 Fixpoint answers_ok (s : state) (es : list event) : Prop :=
   match es with
   | [] => True
-  | e :: r => answer_ok (snd s) e (fst (step K s e)) /\ answers_ok (snd (step K s e)) r
+  | e :: r => answer_ok (snd s) e (fst (step K fl s e)) /\ answers_ok (snd (step K fl s e)) r
   end.
 
-Lemma run_snd s es : forall e, snd (run K s (e :: es)) = snd (run K (snd (step K s e)) es).
-Proof. intros e. simpl. destruct (step K s e) as [a s1]. simpl. destruct (run K s1 es). reflexivity. Qed.
+Lemma run_snd s es : forall e, snd (run K fl s (e :: es)) = snd (run K fl (snd (step K fl s e)) es).
+Proof. intros e. simpl. destruct (step K fl s e) as [a s1]. simpl. destruct (run K fl s1 es). reflexivity. Qed.
 
 Theorem history_invariant_gen : forall es s, Inv (snd s) -> good_run s es ->
-  Inv (snd (snd (run K s es))) /\ ext (snd s) (snd (snd (run K s es))) /\ answers_ok s es.
+  Inv (snd (snd (run K fl s es))) /\ ext (snd s) (snd (snd (run K fl s es))) /\ answers_ok s es.
 Proof.
   induction es as [|e r IH]; intros s I G.
   - simpl. auto using ext_refl.
   - destruct G as (Ge & Gr). destruct s as [st h]. destruct (step_sound st h e I Ge) as (I1 & E1 & A1).
-    destruct (IH (snd (step K (st, h) e)) I1 Gr) as (I2 & E2 & A2).
+    destruct (IH (snd (step K fl (st, h) e)) I1 Gr) as (I2 & E2 & A2).
     rewrite run_snd. split; [exact I2|]. split; [eapply ext_trans; eauto|]. simpl. auto.
 Qed.
 
